@@ -231,3 +231,65 @@ package core
 //@ ensures result == nil ==> signing.Verify(ctx, eth2Cl, data.DomainName(), res(0, data.Epoch(ctx, eth2Cl)), res(0, data.MessageRoot()), data.Signature().ToETH2(), pubkey) == nil
 //@ canary result != nil
 
+
+// ---- duty constructors ----------------------------------------------------------------------
+
+//@ func NewAttesterDuty
+//@ props C10 C15
+//@ pure
+//@ ensures result.Slot == slot && result.Type == DutyAttester
+
+//@ func NewRandaoDuty
+//@ props C10 C15
+//@ pure
+//@ ensures result.Slot == slot && result.Type == DutyRandao
+
+//@ func NewProposerDuty
+//@ props C10 C15
+//@ pure
+//@ ensures result.Slot == slot && result.Type == DutyProposer
+
+//@ func NewVoluntaryExit
+//@ props C10 C15
+//@ pure
+//@ ensures result.Slot == slot && result.Type == DutyExit
+
+//@ func NewBuilderRegistrationDuty
+//@ props C10 C15
+//@ pure
+//@ ensures result.Slot == slot && result.Type == DutyBuilderRegistration
+
+//@ func NewSignatureDuty
+//@ props C10 C15
+//@ pure
+//@ ensures result.Slot == slot && result.Type == DutySignature
+
+//@ func NewPrepareAggregatorDuty
+//@ props C10 C15
+//@ pure
+//@ ensures result.Slot == slot && result.Type == DutyPrepareAggregator
+
+//@ func NewAggregatorDuty
+//@ props C10 C15
+//@ pure
+//@ ensures result.Slot == slot && result.Type == DutyAggregator
+
+//@ func NewSyncMessageDuty
+//@ props C10 C15
+//@ pure
+//@ ensures result.Slot == slot && result.Type == DutySyncMessage
+
+//@ func NewPrepareSyncContributionDuty
+//@ props C10 C15
+//@ pure
+//@ ensures result.Slot == slot && result.Type == DutyPrepareSyncContribution
+
+//@ func NewSyncContributionDuty
+//@ props C10 C15
+//@ pure
+//@ ensures result.Slot == slot && result.Type == DutySyncContribution
+
+//@ func NewInfoSyncDuty
+//@ props C10 C15
+//@ pure
+//@ ensures result.Slot == slot && result.Type == DutyInfoSync
